@@ -363,6 +363,12 @@ var sendCheck = &core.Check{Name: "c15/send", Quick: 2500, Thorough: 150000, Fn:
 		data := walletref.UsedDataCell(vp.Ref, uint64(stored), pub, ids, usage)
 		c.Note("data_cell", data.Bits().FiftHex()+fmt.Sprintf(" + %d refs", len(data.Refs)))
 		chain.State = wtest.StateActive(id, 1000, code, wtest.MustCell(data))
+		if c.Intn("active.nocode", 6) == 0 {
+			// an active account whose stored state has data and no code cell (legal, if unusual): it is
+			// active all the same - stored seqno, no initial state
+			chain.State.Account.Account.Storage.State.AccountActive.StateInit.Code = tlb.Maybe[tlb.Ref[boc.Cell]]{}
+			c.Class("active account without a code cell")
+		}
 	case accFrozen:
 		var h [32]byte
 		copy(h[:], addr.Hash[:])
